@@ -135,6 +135,19 @@ def classify(mm, model):
     return sig
 
 
+def _report(chk, traces, reached, crashed, seeds):
+    nev = 0
+    for t, tr in enumerate(traces, start=1):
+        nev += len(tr)
+        if reached[t] != len(tr) + 1:
+            e = tr[max(reached[t], 1) - 1]
+            chk.violation({"kind": "trace_rejected" if t not in crashed else "trace_state_unreadable", "action": e["op"], "accepted_by_code": bool(e["ok"])},
+                          {"trace_seed": seeds[t - 1], "event_index": reached[t], "event": {k_: e[k_] for k_ in ("op", "a", "x", "view", "ok")},
+                           "err": e.get("err"), "history": [[x["op"], x["a"], x["view"], x["ok"]] for x in tr[:reached[t]]],
+                           "logged_post": e["post"]})
+    return nev
+
+
 def trace_validation(chk, model, quick, sd):
     """Code -> spec: long random histories recorded from the real code, validated by TLC against Trace_Module.tla."""
     ntr, length = (64, 25) if quick else (1500, 30)
@@ -143,37 +156,23 @@ def trace_validation(chk, model, quick, sd):
             for i, ch in enumerate(C.chunks(seeds, C.NCPU))]
     outs = C.run_workers("trace_module", jobs, timeout=3000)
     traces = [t for o in outs for t in o["traces"]]
-    tf = os.path.join(C.WORK, "traces.json")
-    json.dump(traces, open(tf, "w"))
-    res = C.run_tlc("MC_Trace_Module", os.path.join(C.SPEC, "MC_Trace_Module.cfg"), "trace_module", workers=C.NCPU, timeout=2400,
-                    env={"TRACE_FILE": tf})
-    if not res.ok:
-        raise C.MachineryError("trace validation failed to run:\n" + res.out[-2000:])
-    reached = collections.Counter()
-    for line in res.printed("AT"):
-        m = re.match(r'<<"AT", (\d+), (\d+)>>', line)
-        reached[int(m.group(1))] = max(reached[int(m.group(1))], int(m.group(2)))
+    reached, crashed = C.validate_traces("MC_Trace_Module", os.path.join(C.SPEC, "MC_Trace_Module.cfg"), traces, "trace_module")
     # binding demonstration: one corrupted field of one trace must be rejected at exactly that event
-    bad = json.loads(json.dumps(traces[:1]))
+    # (on a trace the specification accepts as it is; with none accepted there is nothing to demonstrate on)
+    accepted = [t for t, tr in enumerate(traces, start=1) if reached[t] == len(tr) + 1 and any(e["ok"] == 1 for e in tr)]
+    if not accepted:
+        return len(traces), _report(chk, traces, reached, crashed, seeds)
+    bad = json.loads(json.dumps([traces[accepted[0] - 1]]))
     k = next(i for i, e in enumerate(bad[0]) if e["ok"] == 1)
     bad[0][k]["post"]["col"]["radius"][3] += 1
     tf2 = os.path.join(C.WORK, "traces_corrupt.json")
     json.dump(bad, open(tf2, "w"))
     res2 = C.run_tlc("MC_Trace_Module", os.path.join(C.SPEC, "MC_Trace_Module.cfg"), "trace_module2", workers=2, timeout=600,
-                     env={"TRACE_FILE": tf2})
+                     env={"TRACE_FILE": tf2}, tolerate_eval_errors=True)
     got = max([int(re.match(r'<<"AT", (\d+), (\d+)>>', l).group(2)) for l in res2.printed("AT")] + [0])
     if got != k + 1:
         raise C.MachineryError("a corrupted trace was matched up to event %d, expected rejection at event %d" % (got, k + 1))
-    nev = 0
-    for t, tr in enumerate(traces, start=1):
-        nev += len(tr)
-        if reached[t] != len(tr) + 1:
-            e = tr[reached[t] - 1]
-            chk.violation({"kind": "trace_rejected", "action": e["op"], "accepted_by_code": bool(e["ok"])},
-                          {"trace_seed": seeds[t - 1], "event_index": reached[t], "event": {k_: e[k_] for k_ in ("op", "a", "x", "view", "ok")},
-                           "err": e.get("err"), "history": [[x["op"], x["a"], x["view"], x["ok"]] for x in tr[:reached[t]]],
-                           "logged_post": e["post"]})
-    return len(traces), nev
+    return len(traces), _report(chk, traces, reached, crashed, seeds)
 
 
 def main(which):
